@@ -161,6 +161,9 @@ PROPS['C17'] = {
     'engines': [unit('ring', 120, 6000, chunk=10),
                 {'kind': 'unit', 'name': 'concring', 'hcmd': 'conc-ring', 'dcmd': 'concring', 'quick': 96, 'thorough': 4000, 'chunk': 8, 'args': []},
                 {'kind': 'unit', 'name': 'hookring', 'hcmd': 'hook-ring', 'dcmd': 'concring', 'quick': 200, 'thorough': 8000, 'chunk': 20, 'args': []},
+                # at the cache level: after quiescence and maintenance no recorded read is left in the buffer (also after SetMaximum changes)
+                {'kind': 'unit', 'name': 'concpolicy', 'hcmd': 'conc-policy', 'dcmd': 'concpolicy', 'quick': 48, 'thorough': 3000, 'chunk': 4, 'args': [],
+                 'accept': lambda f: 'C17' in f['msg']},
                 seq(['mix', 'bound'], 120, 4000, any_fail)],
     'rule': 'HOOK-ring: the striped buffer with another goroutine\'s action (expansion, another recording, a drain) placed exactly at a producer\'s publication point through a hooked node: accepted = delivered. UNIT-ring: add/drain phases on one ring incl. full and empty boundaries. CONC-ring: 1-16 recorders racing one draining consumer on the striped buffer (maximum stripes 1..64): accepted vs delivered sets, capacity, quiescent delivery. '
             'SEQ (mix/bound): cache results are exact against Spec, which has no read buffer, with read-heavy scripts that saturate the buffer. distinct = distinct transcripts with >= 10 lines',
